@@ -160,7 +160,7 @@ impl GenCfg {
             max_sites: rng.range(1, 8) as usize,
             n_chan,
             n_in: *rng.pick(&[0u32, 0, 0, 1, 2]),
-            max_delay: *rng.pick(&[4u32, 16, 64, 100]),
+            max_delay: *rng.pick(&[4u32, 16, 64, 100, 100, 10000]),
             kinds,
             mix_channels: rng.chance(1, 3),
         }
@@ -180,6 +180,18 @@ impl ProgGen {
         let i = self.next_id;
         self.next_id += 1;
         i
+    }
+    /// A voice for an edit (insert / replace). A voice with an array-typed `self` only ever
+    /// appears in the initial program: as new code it may legitimately inherit cells of the site
+    /// it replaces, and a number inherited into its guard cell makes it index the zero handle (a
+    /// panic that is the voice's own fragility, not a migration error).
+    fn new_voice_for_edit(&mut self, rng: &mut Rng) -> Voice {
+        loop {
+            let v = self.new_voice(rng);
+            if v.kind != Kind::ArrSelf {
+                return v;
+            }
+        }
     }
     fn new_voice(&mut self, rng: &mut Rng) -> Voice {
         let kind = *rng.pick(&self.cfg.kinds);
@@ -300,7 +312,7 @@ impl ProgGen {
             match rng.below(100) {
                 0..=24 if n < self.cfg.max_sites.max(1) + 2 => {
                     let pos = rng.below(n as u64 + 1) as usize;
-                    let v = self.new_voice(rng);
+                    let v = self.new_voice_for_edit(rng);
                     let id = v.id;
                     self.route(rng, &mut p.chans, id);
                     p.sites.insert(pos, v);
@@ -318,7 +330,7 @@ impl ProgGen {
                 50..=64 if n >= 1 => {
                     let pos = rng.below(n as u64) as usize;
                     let old_id = p.sites[pos].id;
-                    let v = self.new_voice(rng);
+                    let v = self.new_voice_for_edit(rng);
                     let new_id = v.id;
                     p.sites[pos] = v;
                     Self::reroute_replace(&mut p.chans, old_id, new_id);
@@ -334,7 +346,7 @@ impl ProgGen {
                 }
                 80..=87 if n >= 1 => {
                     let pos = rng.below(n as u64) as usize;
-                    if p.sites[pos].wrap < 4 && !matches!(p.sites[pos].kind, Kind::Duo | Kind::DlySrc | Kind::FeedDly | Kind::InMem | Kind::InDly) {
+                    if p.sites[pos].wrap < 4 && !matches!(p.sites[pos].kind, Kind::Duo | Kind::DlySrc | Kind::FeedDly | Kind::InMem | Kind::InDly | Kind::ArrSelf) {
                         let old_id = p.sites[pos].id;
                         let new_id = self.fresh_id();
                         p.sites[pos].wrap += 1;
@@ -346,7 +358,7 @@ impl ProgGen {
                 }
                 88..=91 if n >= 1 => {
                     let pos = rng.below(n as u64) as usize;
-                    if p.sites[pos].wrap > 0 {
+                    if p.sites[pos].wrap > 0 && p.sites[pos].kind != Kind::ArrSelf {
                         let old_id = p.sites[pos].id;
                         let new_id = self.fresh_id();
                         p.sites[pos].wrap -= 1;
@@ -361,6 +373,10 @@ impl ProgGen {
                     let mut b = rng.below(n as u64) as usize;
                     if a == b {
                         b = (a + 1) % n;
+                    }
+                    // (a moved array-state voice is new code at its new place: see new_voice_for_edit)
+                    if p.sites[a].kind == Kind::ArrSelf || p.sites[b].kind == Kind::ArrSelf {
+                        continue;
                     }
                     p.sites.swap(a, b);
                     p.edit = Edit::Reorder { a_id: p.sites[a].id, b_id: p.sites[b].id };
